@@ -6,6 +6,7 @@ Contracts are *inserted*; nothing else is touched.  Any lost anchor or unknown c
 `Undecided`.
 """
 import hashlib
+import json
 import os
 import re
 
@@ -20,6 +21,68 @@ _src_cache = {}
 _virtual = {}   # pseudo path -> SourceFile built from an item-level macro (T-MACRO-ITEM)
 
 
+ALPHA_LOG = []     # rule T-ALPHA: functions whose text has been replaced by the recorded, alpha-equivalent one
+_baseline_src = None
+
+
+def fn_texts(sf):
+    """every function of a source file: key (path of the enclosing impl / trait / mod, name, ordinal) -> (start, end, text)"""
+    out = {}
+
+    def rec(items, prefix):
+        cnt = {}
+        for it in items:
+            if it.kind == "fn":
+                k_ = prefix + "::" + it.name
+                cnt[k_] = cnt.get(k_, 0) + 1
+                a_, b_ = sf.toks[it.k0].start, sf.toks[it.k1].end
+                out[f"{k_}#{cnt[k_]}"] = (a_, b_, sf.text[a_:b_])
+            elif it.kind in ("impl", "trait", "mod") and it.children:
+                rec(it.children, prefix + "/" + it.kind + " " + it.name)
+    rec(sf.items, "")
+    return out
+
+
+def _alpha_normalise(relpath, text):
+    """T-ALPHA: a function that differs from its recorded text only by the names of its local variables / parameters (scope-aware
+    check of eav/alpha.py; comments, white space and the text of log messages do not count) is given its recorded text back."""
+    global _baseline_src
+    if os.environ.get("VERIF_NO_ALPHA"):
+        return text
+    if _baseline_src is None:
+        try:
+            _baseline_src = json.load(open(os.path.join(VERIF, "baseline_src.json"), encoding="utf-8"))
+        except Exception:
+            _baseline_src = {}
+    base = _baseline_src.get(relpath)
+    if not base:
+        return text
+    try:
+        sf = SourceFile(relpath, text)
+        cur = fn_texts(sf)
+    except Exception:
+        return text
+    from alpha import alpha_equal
+    repl = []
+    for key, (a_, b_, t_) in cur.items():
+        bt = base.get(key)
+        if bt is None or bt == t_:
+            continue
+        if alpha_equal(t_, bt):
+            repl.append((a_, b_, bt, key))
+    # (nested functions: only the outermost replacement of overlapping ones counts)
+    repl.sort()
+    kept, last_end = [], -1
+    for r_ in repl:
+        if r_[0] >= last_end:
+            kept.append(r_)
+            last_end = r_[1]
+    for a_, b_, bt, key in reversed(kept):
+        ALPHA_LOG.append({"rule": "T-ALPHA", "file": relpath, "item": key, "from": text[a_:b_], "to": bt})
+        text = text[:a_] + bt + text[b_:]
+    return text
+
+
 def source(relpath):
     if relpath in _virtual:
         return _virtual[relpath]
@@ -28,7 +91,7 @@ def source(relpath):
     if key is None:
         raise Undecided(f"source file {relpath} not found")
     if key not in _src_cache:
-        _src_cache[key] = SourceFile(relpath, open(p, encoding="utf-8").read())
+        _src_cache[key] = SourceFile(relpath, _alpha_normalise(relpath, open(p, encoding="utf-8").read()))
     return _src_cache[key]
 
 
@@ -2429,6 +2492,8 @@ class Unit:
         if added_:
             emit("verus! {\n" + "\n".join(added_) + "\n}\n", kind="glue")
         emit("fn main() {}\n", kind="glue")
+        files_ = {p.relpath for p in self.pieces}
+        self.auto_log += [e_ for e_ in ALPHA_LOG if e_["file"] in files_]
         if self.baseline_attrs is not None:
             for key in sorted(set(self.attrsigs) | set(self.baseline_attrs)):
                 if self.attrsigs.get(key, []) != self.baseline_attrs.get(key, []):
